@@ -9,6 +9,8 @@ random call sequences in which about 30 % of the calls are out of order.
 Oracle: the property statement evaluated directly on the spies' and archives'
 logs (Python only, no model involved).
 """
+import copy
+import pickle
 import random
 import warnings
 
@@ -56,11 +58,16 @@ RULE = ("random sequences of ask / ask_dqd / tell / tell_dqd calls (about 30 % o
         "objectives that differ by less than float32 resolution; tells with a malformed argument (wrong length; right "
         "length but NaN / inf in objective, measures or the Jacobian; wrong inner shape of measures, the Jacobian or "
         "an extra field) anywhere in the sequence, followed by calls of either kind; "
+        "pickle round trips and deep copies of the scheduler at generated protocol positions (between ask and tell, between ask_dqd and tell_dqd, after tell), the run continuing on the restored object; a stratum with two or three schedulers alive at once (own archives, own spies, own batch sizes) whose calls are interleaved, each judged by its own oracle state and model instance; "
         "every case is run a second time in the other add mode for the archive-contents comparison. A case "
         "is non-trivial when an accepted tell routes rows of at least two emitters with unequal batch sizes, or "
         "contains a rejected call made after rows were inserted; counted once per distinct op list")
 PARTIAL = []
 ASSUMPTIONS = [
+    "a scheduler restored by pickle.loads(pickle.dumps(s)) or copy.deepcopy(s) must behave exactly like the original "
+    "would have (same routing, same RuntimeErrors); spies and recording archives are module-level classes sharing one "
+    "log list per scheduler, so they survive the round trip; schedulers alive at the same time must not influence "
+    "each other",
     "constructor options whose value equals the documented default (Scheduler add_mode='batch', result_archive=None; "
     "archive dtype float64, extra_fields None) are omitted from the call; model and oracle use the documented value",
     "a solution is the token (emitter, iteration, position); every per-row value handed to tell (objective, "
@@ -202,17 +209,27 @@ def sols_of(arr):
 # spies
 
 
-def make_spies(archive, descr, log):
+_CLS = {}
+
+
+def _classes():
+    """Spy emitters and recording archives as module-level classes (created on first use, after `ribs` is importable
+    from the tree under test), so that a scheduler holding them survives pickle / deepcopy.  Everything they record
+    goes to `self._log`, one list shared by the spies and archives of one scheduler (pickle keeps it shared)."""
+    if _CLS:
+        return _CLS
+    from ribs.archives import GridArchive, ProximityArchive
     from ribs.emitters import EmitterBase
 
     class Spy(EmitterBase):
         """Non-DQD emitter: generates rows in ask(); inherits ask_dqd (empty) from EmitterBase."""
 
-        def __init__(self, idx):
+        def __init__(self, archive, idx, log):
             EmitterBase.__init__(self, archive, solution_dim=SOLDIM, bounds=None)
             self.idx = idx
             self.next_n = 0
             self.cur_it = -1
+            self._log = log
 
         @property
         def batch_size(self):  # a *configured* size that is never the emitted one
@@ -224,7 +241,7 @@ def make_spies(archive, descr, log):
             out[:, 0] = self.idx
             out[:, 1] = self.cur_it
             out[:, 2] = np.arange(n)
-            log.append({"ev": "ask", "dqd": dqd, "em": self.idx, "out": out.copy()})
+            self._log.append({"ev": "ask", "dqd": dqd, "em": self.idx, "out": out.copy()})
             return out
 
         def ask(self):
@@ -247,20 +264,20 @@ def make_spies(archive, descr, log):
                     raise ValueError(f"spy emitter {self.idx}: field {name} has shape {arr.shape} for {n} rows")
 
         def tell(self, solution, objective, measures, add_info, **fields):
-            log.append({"ev": "tell", "dqd": False, "em": self.idx, "solution": np.array(solution),
-                        "objective": None if objective is None else np.array(objective),
-                        "measures": np.array(measures), "jacobian": None,
-                        "add_info": {k: np.array(v) for k, v in add_info.items()},
-                        "fields": {k: np.array(v) for k, v in fields.items()}})
-            self._validate(log[-1])
+            self._log.append({"ev": "tell", "dqd": False, "em": self.idx, "solution": np.array(solution),
+                              "objective": None if objective is None else np.array(objective),
+                              "measures": np.array(measures), "jacobian": None,
+                              "add_info": {k: np.array(v) for k, v in add_info.items()},
+                              "fields": {k: np.array(v) for k, v in fields.items()}})
+            self._validate(self._log[-1])
 
         def tell_dqd(self, solution, objective, measures, jacobian, add_info, **fields):
-            log.append({"ev": "tell", "dqd": True, "em": self.idx, "solution": np.array(solution),
-                        "objective": None if objective is None else np.array(objective),
-                        "measures": np.array(measures), "jacobian": np.array(jacobian),
-                        "add_info": {k: np.array(v) for k, v in add_info.items()},
-                        "fields": {k: np.array(v) for k, v in fields.items()}})
-            self._validate(log[-1])
+            self._log.append({"ev": "tell", "dqd": True, "em": self.idx, "solution": np.array(solution),
+                              "objective": None if objective is None else np.array(objective),
+                              "measures": np.array(measures), "jacobian": np.array(jacobian),
+                              "add_info": {k: np.array(v) for k, v in add_info.items()},
+                              "fields": {k: np.array(v) for k, v in fields.items()}})
+            self._validate(self._log[-1])
 
     class DqdSpy(Spy):
         """DQD emitter: generates rows in ask_dqd() as well."""
@@ -272,42 +289,66 @@ def make_spies(archive, descr, log):
 
         def ask_dqd(self):
             out = EmitterBase.ask_dqd(self)
-            log.append({"ev": "ask", "dqd": True, "em": self.idx, "out": np.array(out)})
+            self._log.append({"ev": "ask", "dqd": True, "em": self.idx, "out": np.array(out)})
             return out
 
-    return [(DqdSpy if d["dqd"] else PlainSpy)(i) for i, d in enumerate(descr)]
+    def rec(cls):
+
+        class Rec(cls):
+            """Archive that records what add / add_single receive and return."""
+            _in_single = False
+            _log = None
+            _is_result = False
+
+            def add(self, solution, objective, measures, **fields):
+                ret = cls.add(self, solution, objective, measures, **fields)
+                if not self._in_single:
+                    self._log.append({"ev": "add", "result": self._is_result, "single": False,
+                                      "solution": np.array(solution), "objective": None if objective is None else
+                                      np.array(objective), "measures": np.array(measures),
+                                      "fields": {k: np.array(v) for k, v in fields.items()},
+                                      "ret": {k: np.array(v) for k, v in ret.items()}})
+                return ret
+
+            def add_single(self, solution, objective, measures, **fields):
+                self._in_single = True
+                try:
+                    ret = cls.add_single(self, solution, objective, measures, **fields)
+                finally:
+                    self._in_single = False
+                self._log.append({"ev": "add", "result": self._is_result, "single": True,
+                                  "solution": np.array(solution)[None], "objective": None if objective is None else
+                                  np.array(objective)[None], "measures": np.array(measures)[None],
+                                  "fields": {k: np.array(v)[None] for k, v in fields.items()},
+                                  "ret": {k: np.array(v) for k, v in ret.items()}})
+                return ret
+
+        return Rec
+
+    found = {"Spy": Spy, "DqdSpy": DqdSpy, "PlainSpy": PlainSpy, "RecGridArchive": rec(GridArchive),
+             "RecProximityArchive": rec(ProximityArchive)}
+    for name, c in found.items():  # make them importable by name: pickle stores classes by reference
+        c.__module__, c.__qualname__, c.__name__ = __name__, name, name
+        globals()[name] = c
+    _CLS.update(found)
+    return _CLS
+
+
+def make_spies(archive, descr, log):
+    cl = _classes()
+    return [(cl["DqdSpy"] if d["dqd"] else cl["PlainSpy"])(archive, i, log) for i, d in enumerate(descr)]
 
 
 def recording(cls, log, is_result):
-    """Archive subclass that records what add / add_single receive and return."""
+    """Constructor of an archive of class `cls` that records what add / add_single receive and return."""
+    rec_cls = _classes()["Rec" + cls.__name__]
 
-    class Rec(cls):
-        _in_single = False
+    def make(**kw):
+        a = rec_cls(**kw)
+        a._log, a._is_result = log, is_result
+        return a
 
-        def add(self, solution, objective, measures, **fields):
-            ret = cls.add(self, solution, objective, measures, **fields)
-            if not self._in_single:
-                log.append({"ev": "add", "result": is_result, "single": False,
-                            "solution": np.array(solution), "objective": None if objective is None else
-                            np.array(objective), "measures": np.array(measures),
-                            "fields": {k: np.array(v) for k, v in fields.items()},
-                            "ret": {k: np.array(v) for k, v in ret.items()}})
-            return ret
-
-        def add_single(self, solution, objective, measures, **fields):
-            self._in_single = True
-            try:
-                ret = cls.add_single(self, solution, objective, measures, **fields)
-            finally:
-                self._in_single = False
-            log.append({"ev": "add", "result": is_result, "single": True,
-                        "solution": np.array(solution)[None], "objective": None if objective is None else
-                        np.array(objective)[None], "measures": np.array(measures)[None],
-                        "fields": {k: np.array(v)[None] for k, v in fields.items()},
-                        "ret": {k: np.array(v) for k, v in ret.items()}})
-            return ret
-
-    return Rec
+    return make
 
 
 DTYPES = {
@@ -400,6 +441,7 @@ def gen_with(kind, rng, long=False):
     p_illegal = rng.choice([0.0, 0.3, 0.3, 0.3, 0.5])
     zero_heavy = rng.random() < 0.25
     p_bad = rng.choice([0.0, 0.06, 0.06, 0.15])
+    p_snap = rng.choice([0.0, 0.0, 0.1, 0.25])
     after_bad = False
 
     def bad_op(ph):
@@ -442,6 +484,10 @@ def gen_with(kind, rng, long=False):
         ops.append(op)
         if name in legal:
             phase = name
+        if rng.random() < p_snap:
+            # checkpoint (pickle round trip) or deep copy here -- between an ask and its tell, after a tell, ... --
+            # and carry on with the restored scheduler
+            ops.append({"op": rng.choice(["pickle", "pickle", "deepcopy"])})
     if rng.random() < 0.12:
         ops.append(bad_op(phase))
     case["ops"] = ops
@@ -452,6 +498,8 @@ def nontrivial(case):
     phase, ns, inserted = "none", None, False
     for op in case["ops"]:
         name = op["op"]
+        if name in ("pickle", "deepcopy"):
+            continue
         if name.endswith("bad"):
             if phase == {"tellbad": "ask", "telldqdbad": "askdqd"}[name]:
                 phase = name[:-3]
@@ -511,6 +559,22 @@ def exc_kind(e):
 def run_mode(case, mode, drv):
     """Runs the case with the given add mode. With `drv` the Lean model runs in lock step.
     Returns (Failure | None, final archive data, final result archive data)."""
+    co = _run_mode_co(case, mode, drv)
+    try:
+        next(co)
+        for it, op in enumerate(case["ops"]):
+            co.send((it, op))
+        co.send(None)
+    except StopIteration as e:
+        return e.value
+    raise AssertionError("unreachable")
+
+
+def _run_mode_co(case, mode, drv):
+    """One scheduler with its oracle state and (optionally) its model instance, as a coroutine: it is sent
+    `(op index, op)` for every call made on this scheduler and `None` at the end, and finishes (StopIteration value)
+    with `(Failure | None, final archive data, final result archive data)`.  Several of them run interleaved in the
+    multi-scheduler stratum."""
     sched, archive, result, spies, log = build(case, mode)
     k = len(spies)
     with_obj = case["archive"] != "proximity"
@@ -528,9 +592,39 @@ def run_mode(case, mode, drv):
     pending = None  # (it, [n_e], [generated arrays])
     refs = {}  # per elitist archive: cell -> (objective in the archive's dtype, it, pos)
     meta = {}  # (em, it, k) -> the row as told
-    for it, op in enumerate(case["ops"]):
+    while True:
+        nxt = yield
+        if nxt is None:
+            break
+        it, op = nxt
         name = op["op"]
         where = f"op#{it} {name}"
+        if name in ("pickle", "deepcopy"):
+            # checkpoint / copy at this protocol position; the run continues on the restored object, which must
+            # behave exactly like the original would have (the model and the oracle state simply carry on)
+            before_a = canon_data(archive)
+            before_r = canon_data(result) if result is not None else None
+            try:
+                with warnings.catch_warnings():
+                    warnings.simplefilter("ignore")
+                    sched = pickle.loads(pickle.dumps(sched)) if name == "pickle" else copy.deepcopy(sched)
+            except Exception as e:  # pylint: disable=broad-except
+                return Failure("oracle", f"{where}: the scheduler cannot be restored: {type(e).__name__}: {e}"), \
+                    None, None
+            archive = sched.archive
+            result = None if result is None else sched.result_archive
+            spies = list(sched.emitters)
+            log = spies[0]._log  # pylint: disable=protected-access
+            for a in (archive, result):
+                if a is not None:
+                    a._log = log  # pylint: disable=protected-access
+            if len(spies) != k or canon_data(archive) != before_a or \
+                    (result is not None and canon_data(result) != before_r):
+                return Failure("oracle", f"{where}: the restored scheduler has other emitters / archive contents "
+                               "than the original"), None, None
+            if drv is not None:
+                stat(f"snapshot:{name}:{'/'.join(sorted(phases))}")
+            continue
         base = name.replace("bad", "")
         bad = name.endswith("bad")
         can = {ph for ph in phases if base in legal[ph]}  # states in which this call is in order
@@ -900,6 +994,61 @@ def run_case(case):
     return None
 
 
+def gen_multi(rng):
+    """Two or three schedulers alive at once -- own archives, own spy emitters, own batch sizes -- whose calls are
+    interleaved in a generated order; every scheduler is judged by its own oracle state and its own model instance."""
+    m = rng.choice([2, 2, 3])
+    subs, streams = [], []
+    for i in range(m):
+        sub = gen_with(rng.choice(["grid", "grid", "cmamae", "proximity"]), rng)
+        streams.append([dict(op, s=i) for op in sub.pop("ops")])
+        subs.append(sub)
+    ops = []
+    while any(streams):
+        i = rng.choice([j for j in range(m) if streams[j]])
+        for _ in range(rng.choice([1, 1, 1, 2])):  # mostly strict alternation: A.ask B.ask A.tell B.tell
+            if streams[i]:
+                ops.append(streams[i].pop(0))
+    return {"multi": subs, "ops": ops}
+
+
+def nontrivial_multi(case):
+    """at least two of the schedulers complete an ask ... tell cycle each"""
+    done = set()
+    open_ = {}
+    for op in case["ops"]:
+        if op["op"] in ("ask", "askdqd"):
+            open_.setdefault(op["s"], op["op"])
+        elif op["op"] in ("tell", "telldqd") and open_.get(op["s"]) == {"tell": "ask", "telldqd": "askdqd"}[op["op"]]:
+            done.add(op["s"])
+            del open_[op["s"]]
+    return len(done) >= 2
+
+
+def run_multi(case):
+    drvs = [Driver("sched") for _ in case["multi"]]
+    cos = [_run_mode_co(dict(sub, ops=[]), sub["mode"], d) for sub, d in zip(case["multi"], drvs)]
+    try:
+        for co in cos:
+            next(co)
+        for it, op in enumerate(case["ops"]):
+            try:
+                cos[op["s"]].send((it, op))
+            except StopIteration as e:
+                f = e.value[0]
+                return None if f is None else Failure(f.kind, f"[scheduler {op['s']} of {len(cos)}] {f.what}")
+        for i, co in enumerate(cos):
+            try:
+                co.send(None)
+            except StopIteration as e:
+                if e.value[0] is not None:
+                    return Failure(e.value[0].kind, f"[scheduler {i} of {len(cos)}] {e.value[0].what}")
+        return None
+    finally:
+        for d in drvs:
+            d.close()
+
+
 def run(ctx):
     q = ctx.quick
     STATS.clear()
@@ -922,6 +1071,8 @@ def _run(ctx, q):
     # BanditScheduler routes rows "as Scheduler does" (its tell is its own code): the C16 runner, judged here
     # only on the routing clauses (which emitter is asked / told which rows)
     ctx.explore("bandit-routing", _bandit_gen, _bandit_run, ctx.n(60, 3000), time_budget=4 if q else 60)
+    ctx.explore("several-schedulers", gen_multi, run_multi, ctx.n(60, 3000), nontrivial=nontrivial_multi,
+                time_budget=4 if q else 60)
 
 
 def _bandit_gen(rng):
@@ -942,4 +1093,6 @@ def _bandit_run(case):
 
 
 def replay(ctx, case):
+    if case.get("multi"):
+        return run_multi(case)
     return _bandit_run(case) if case.get("bandit") else run_case(case)
